@@ -103,8 +103,9 @@ func zzCopyReg(failAt int) {
 	if zzWantForeign && zzTier() == 0 {
 		zzSmall = true // quick: the foreign layer variant uses the small graph
 	}
+	zzWantBlobEntry = failAt < 0 && (zzTier() > 0 || pairing == 3) && zzBool("blob_typed_index_entry")
 	w := zzBuildWorld() // source content in the layout /src and in w.bytes
-	zzWantForeign = false
+	zzWantForeign, zzWantBlobEntry = false, false
 	includeExternal := false
 	if w.foreign != "" {
 		includeExternal = zzBool("include_external")
